@@ -375,4 +375,10 @@ def rule_file(ctx):
                f"close is bound to `{src(v)}`, not to the backend's close of the opened file", construct="__aenter__:close target")
 
 
-RULES = [rule_fields, rule_detach, rule_replace, rule_tasks, rule_close, rule_file]
+def rule_timeout_ends(ctx):
+    from .c16 import rule_end
+    ctx.rule("C12.TIMEOUT", "a timeout ends the session and runs the clean-up: the dispatcher does not swallow TimeoutError and carry on with a stalled peer's resources (shared with C16.END)")
+    ctx.borrow(rule_end, {"C16.END": "C12.TIMEOUT"})
+
+
+RULES = [rule_fields, rule_detach, rule_replace, rule_tasks, rule_close, rule_file, rule_timeout_ends]
